@@ -96,6 +96,15 @@ fn observe<R: HRole>(run: &Runner<R>, g: &mut Ghost) {
             g.limbo.retain(|x| *x != id);
         }
     }
+    // a new session resets every identifier without an event: what is no longer in use is no longer held
+    if let Some(c) = run.conn.as_ref() {
+        let s = c.verif_state();
+        let used = |id: u64| id != 0 && !s.pid_free.iter().any(|(l, h)| *l <= id && id <= *h);
+        g.held.retain(|x| used(*x));
+        g.limbo.retain(|x| used(*x));
+        let mut seen: Vec<u64> = Vec::new();
+        g.held.retain(|x| if seen.contains(x) { false } else { seen.push(*x); true });
+    }
 }
 
 /// contract: an id handed to a send must be in use and not owned by an open exchange
@@ -344,7 +353,9 @@ fn drive<R: HRole>(rng: &mut Rng, role_n: u64, ver: u64, bias: u64, abuse: bool,
     let small_ids: [u64; 5] = [1, 2, 3, IDMAX - 1, IDMAX];
 
     // ---- optional session restore on the fresh object (C16) ----
-    if rng.chance(if bias == 16 { 2 } else { 1 }, 8) && ver != 0 {
+    // (also into an endpoint created with an undetermined version: a broker-side object is given the export before the
+    //  client's CONNECT determines its version)
+    if rng.chance(if bias == 16 { 2 } else { 1 }, 8) {
         let mut l: Vec<GenericStorePacket<Pid>> = Vec::new();
         let n = rng.range(1, 4);
         for _ in 0..n {
@@ -556,6 +567,7 @@ fn drive<R: HRole>(rng: &mut Rng, role_n: u64, ver: u64, bias: u64, abuse: bool,
                 0 | 1 => {
                     run.apply(&Op::Acquire, &mut st);
                     if let Some(id) = run.last_acquired.take() {
+                        g.held.retain(|x| *x != id);
                         g.held.push(id);
                     }
                 }
@@ -747,8 +759,10 @@ fn local_send<R: HRole>(
         let sn = run.conn.as_ref().unwrap().verif_state();
         let used = !sn.pid_free.iter().any(|(l, h)| *l <= id && id <= *h);
         let open = sn.pid_pubcomp.contains(&id) || sn.pid_puback.contains(&id) || sn.pid_pubrec.contains(&id)
-            || sn.pid_suback.contains(&id) || sn.pid_unsuback.contains(&id) || g.held.contains(&id)
+            || sn.pid_suback.contains(&id) || sn.pid_unsuback.contains(&id)
             || run.conn.as_ref().unwrap().get_stored_packets().iter().any(|p| p.packet_id() as u64 == id);
+        // the exchange under this identifier is still open (PUBREL owed): it is not one the application may hand to a new send
+        g.held.retain(|x| *x != id);
         if used && !open {
             if let Some(p) = mk_ack(rng, wv, 6, id) {
                 run.apply(&Op::Send(p), st);
